@@ -374,6 +374,7 @@ type vCtx struct {
 	errVar  string
 	pending []vClause
 	names   []string
+	named   []*vCond // the condition each name stands for
 	prefix  string
 	symb    int // > 0 inside a branch whose condition depends on the configuration
 	depth   int
@@ -384,7 +385,7 @@ type vExit struct{ acc, fall *vCond } // relative to the entry: leaves by an acc
 
 func (x *vCtx) errf(n ast.Node, format string, a ...interface{}) error {
 	pos := x.cf.fset.Position(n.Pos())
-	return fmt.Errorf("%s: %s:%d: %s", x.si.name, filepath.Base(pos.Filename), pos.Line, fmt.Sprintf(format, a...))
+	return fmt.Errorf("%s: %s:%d: %s", x.si.name, filepath.Base(pos.Filename), pos.Line, strings.Join(strings.Fields(fmt.Sprintf(format, a...)), " "))
 }
 
 func (x *vCtx) constLocals() map[string]c15Val {
@@ -791,10 +792,21 @@ func (x *vCtx) clauseName(cur *vCond) string {
 	if n == "" {
 		n = "(unconditionally)"
 	}
-	if !cur.isT() {
-		n += "   [reached only when " + cur.show() + "]"
-	}
 	return x.prefix + n
+}
+
+// the clause name, annotated when the condition of the clause is more than the named guards (an earlier return nil,
+// an enclosing call made only under a condition)
+func (x *vCtx) clauseNameFor(abs *vCond) string {
+	named := vTrue
+	for _, c := range x.named {
+		named = vAnd(named, c)
+	}
+	n := x.clauseName(vTrue)
+	if !vEqual(abs, named) {
+		n += "   [as a whole: " + abs.show() + "]"
+	}
+	return n
 }
 
 func (x *vCtx) emit(name string, c *vCond) { *x.out = append(*x.out, vClause{name, c}) }
@@ -840,7 +852,7 @@ func (x *vCtx) walk(stmts []ast.Stmt, g *vCond) (vExit, error) {
 				if s.Tok != token.ASSIGN || !isErrCtor(x.cf, s.Rhs[0]) {
 					return vExit{}, x.errf(s, "the error variable is assigned something else than a new error: %s", x.cf.text(s))
 				}
-				x.pending = append(x.pending, vClause{x.clauseName(cur), vAnd(g, cur)})
+				x.pending = append(x.pending, vClause{x.clauseNameFor(vAnd(g, cur)), vAnd(g, cur)})
 				continue
 			}
 			if x.symb > 0 {
@@ -879,10 +891,15 @@ func (x *vCtx) walk(stmts []ast.Stmt, g *vCond) (vExit, error) {
 			case x.cf.text(r) == "nil":
 				acc = vOr(acc, cur)
 			case isErrCtor(x.cf, r):
-				x.emit(x.clauseName(cur), vAnd(g, cur))
+				x.emit(x.clauseNameFor(vAnd(g, cur)), vAnd(g, cur))
 			case x.errVar != "" && x.cf.text(r) == x.errVar:
 				for _, p := range x.pending {
-					x.emit(p.name, vAnd(p.cond, vAnd(g, cur)))
+					c := vAnd(p.cond, vAnd(g, cur))
+					n := p.name
+					if !vEqual(c, p.cond) {
+						n += "   [as a whole: " + c.show() + "]"
+					}
+					x.emit(n, c)
 				}
 				acc = vOr(acc, cur)
 			default:
@@ -956,16 +973,20 @@ func (x *vCtx) walkIf(s *ast.IfStmt, g, cur *vCond) (vExit, error) {
 	txt := x.cf.text(s.Cond)
 	x.symb++
 	x.names = append(x.names, txt)
+	x.named = append(x.named, c)
 	ex1, err := x.walk(s.Body.List, vAnd(vAnd(g, cur), c))
 	x.names = x.names[:len(x.names)-1]
+	x.named = x.named[:len(x.named)-1]
 	if err != nil {
 		return vExit{}, err
 	}
 	ex2 := vExit{vFalse, vTrue}
 	if s.Else != nil {
 		x.names = append(x.names, "!("+txt+")")
+		x.named = append(x.named, vNot(c))
 		ex2, err = x.walk(elseStmts, vAnd(vAnd(g, cur), vNot(c)))
 		x.names = x.names[:len(x.names)-1]
+		x.named = x.named[:len(x.named)-1]
 		if err != nil {
 			return vExit{}, err
 		}
@@ -1030,8 +1051,10 @@ func (x *vCtx) walkSwitch(s *ast.SwitchStmt, g, cur *vCond) (vExit, error) {
 			}
 		}
 		x.names = append(x.names, txt)
+		x.named = append(x.named, c)
 		ex, err := x.walk(cc.Body, vAnd(vAnd(g, cur), vAnd(rem, c)))
 		x.names = x.names[:len(x.names)-1]
+		x.named = x.named[:len(x.named)-1]
 		if err != nil {
 			return vExit{}, err
 		}
